@@ -558,6 +558,18 @@ def check_style(fg, bg, attrs):
             seen = other.format(tagged) if way.startswith("other-plain") else strip_sgr(other.format(tagged))
             if "s0>" not in seen:
                 out.append(("b:style-leaked-to:" + way, "a style added to one formatter is applied by another formatter object", tagged, seen))
+        # 2c. added under a tag that the formatter's style set already defines (the caller's style replaces it), on a
+        #     formatter that has not formatted anything yet, and again after it has
+        from clikit.formatter import DefaultStyleSet
+        re_tagged = tagged.replace("s0>", "info>")
+        f7 = _ansi(DefaultStyleSet())
+        f7.add_style(make_style("info", fg, bg, attrs))
+        ansi_case("add_style:redefines-default-tag", f7.format(re_tagged))
+        plain_case("add_style:redefines-default-tag.remove_format", f7.remove_format(re_tagged))
+        f8 = _ansi(DefaultStyleSet())
+        f8.format(re_tagged)
+        f8.add_style(make_style("info", fg, bg, attrs))
+        ansi_case("add_style:redefines-default-tag:after-use", f8.format(re_tagged))
         # 2b. added later, seen through an Output that holds the formatter
         s = BufferedOutputStream()
         o = Output(s, f2)
